@@ -50,18 +50,8 @@ def rule_separator_consumers(ctx: Ctx, rule: str) -> None:
     ctx.floor(rule, '_STAR references', n_star, 4)
     ctx.floor(rule, '_QMARK emissions', n_q, 2)
     # _sequence returns
-    fi = repo.func(WP, 'WcParse._sequence')
-    q = fq(fi)
-    rets = q.stmts(lambda n: isinstance(n, ast.Return))
-    ctx.floor(rule, '_sequence returns', len(rets), 1)
-    for i, r in enumerate(rets, 1):
-        v = r.value
-        prefixed = isinstance(v, ast.BinOp) and isinstance(v.op, ast.Add) and _is_call_to(v.left, 'self._restrict_sequence')
-        ok = prefixed or q.guarded(r, 'self.pathname', 'F')
-        ctx.ob(rule, f'{WP}:WcParse._sequence/return@{i}', ok, repo.loc(WP, r),
-               'prefixed by self._restrict_sequence() unless pathname is false',
-               norm_src(r) + ('' if ok else f' guards {sorted(q.guards(r))}'),
-               witness="globmatch('a/b', 'a[!x]b') must be False")
+    from . import seqrules
+    seqrules.rule_sequence_epilogue(ctx, rule, which={'return'})
     # decision tables of the two guard selectors
     _restrict_tables(ctx, rule)
     # re.escape emissions after separator tests
